@@ -515,3 +515,92 @@ impl<C: PixelColor> DrawTarget for ExtentT<C> {
         Ok(())
     }
 }
+
+// ---------------------------------------------------------------------------------------------
+// Row-sampling target (shapes of thousands of pixels: only some rows are recorded)
+// ---------------------------------------------------------------------------------------------
+
+/// Records, for a set of sampled rows only, the horizontal runs that are drawn: `fill_solid` costs
+/// O(sampled rows inside the area), so a scanline-drawn shape of 20 000 px costs O(20 000) instead of
+/// O(4 * 10^8). Later runs overwrite earlier ones (`color_at`). It never clips.
+pub struct RowsT<C: PixelColor> {
+    pub sample: std::collections::BTreeSet<i32>,
+    pub rows: BTreeMap<i32, Vec<(i32, i32, C)>>,
+    /// pixels pulled through `draw_iter` / `fill_contiguous` (bounded by the caller's choice of shapes)
+    pub pulled: u64,
+    pub fills: u64,
+}
+
+impl<C: PixelColor> RowsT<C> {
+    pub fn new(sample: impl IntoIterator<Item = i32>) -> Self {
+        Self { sample: sample.into_iter().collect(), rows: BTreeMap::new(), pulled: 0, fills: 0 }
+    }
+    /// Colour of the point after all recorded calls (`None` = untouched); `y` must be a sampled row.
+    pub fn color_at(&self, p: Point) -> Option<C> {
+        self.rows.get(&p.y).and_then(|runs| runs.iter().rev().find(|(a, b, _)| *a <= p.x && p.x <= *b).map(|r| r.2))
+    }
+    /// All run ends of a sampled row (probe positions).
+    pub fn run_ends(&self, y: i32) -> Vec<i32> {
+        self.rows.get(&y).map(|r| r.iter().flat_map(|(a, b, _)| [*a, *b]).collect()).unwrap_or_default()
+    }
+}
+
+impl<C: PixelColor> Dimensions for RowsT<C> {
+    fn bounding_box(&self) -> Rectangle {
+        Rectangle::new(Point::new(-1_000_000, -1_000_000), Size::new(2_000_000, 2_000_000))
+    }
+}
+
+impl<C: PixelColor> DrawTarget for RowsT<C> {
+    type Color = C;
+    type Error = Fault;
+    fn draw_iter<I: IntoIterator<Item = Pixel<C>>>(&mut self, pixels: I) -> Result<(), Fault> {
+        for Pixel(p, c) in pixels {
+            self.pulled += 1;
+            if self.sample.contains(&p.y) {
+                self.rows.entry(p.y).or_default().push((p.x, p.x, c));
+            }
+        }
+        Ok(())
+    }
+    fn fill_contiguous<I: IntoIterator<Item = C>>(&mut self, area: &Rectangle, colors: I) -> Result<(), Fault> {
+        let w = area.size.width as i32;
+        let mut it = colors.into_iter();
+        for y in area.rows() {
+            if !self.sample.contains(&y) {
+                // skip the row's colours
+                if w > 0 && it.nth(w as usize - 1).is_none() {
+                    return Ok(());
+                }
+                self.pulled += w as u64;
+                continue;
+            }
+            for x in area.columns() {
+                match it.next() {
+                    Some(c) => {
+                        self.pulled += 1;
+                        self.rows.entry(y).or_default().push((x, x, c));
+                    }
+                    None => return Ok(()),
+                }
+            }
+        }
+        Ok(())
+    }
+    fn fill_solid(&mut self, area: &Rectangle, color: C) -> Result<(), Fault> {
+        self.fills += 1;
+        if area.is_zero_sized() {
+            return Ok(());
+        }
+        let (x0, x1) = (area.top_left.x, area.top_left.x + area.size.width as i32 - 1);
+        let rows = area.rows();
+        for &y in self.sample.range(rows) {
+            self.rows.entry(y).or_default().push((x0, x1, color));
+        }
+        Ok(())
+    }
+    fn clear(&mut self, color: C) -> Result<(), Fault> {
+        let b = self.bounding_box();
+        self.fill_solid(&b, color)
+    }
+}
